@@ -177,3 +177,154 @@ func vfPickName(n int) string {
 }
 
 func vfQueuedLen(q *memberlist.TransmitLimitedQueue, i int) int { return 0 }
+
+// ---- arbitrary (symbolic) Serf states for inductive-step harnesses ----
+
+// vfArbEventBuffer fills the event de-duplication buffer (length n) with
+// symbolic content: each slot is empty or holds a symbolic time congruent to
+// its index with up to 1 recorded event; clock and cut-off symbolic.
+func vfArbEventBuffer(s *Serf, n int) {
+	s.eventBuffer = make([]*userEvents, n)
+	ec := vfU64("eclock")
+	vfAssume(ec < 1<<62)
+	s.eventClock.counter.Store(ec)
+	s.eventMinTime = LamportTime(vfU64("emin"))
+	for i := 0; i < n; i++ {
+		if vfBool("eslot") {
+			t := vfU64("et")
+			// representation invariant: recorded times are below the clock and sit in their own slot
+			vfAssume(t < ec)
+			vfAssume(t%uint64(n) == uint64(i))
+			ue := &userEvents{LTime: LamportTime(t)}
+			if vfBool("eslot1") {
+				ue.Events = append(ue.Events, userEvent{Name: string(vfFixedBytes("en", 1)), Payload: vfFixedBytes("ep", 1)})
+			}
+			s.eventBuffer[i] = ue
+		}
+	}
+}
+
+// vfArbQueryBuffer: the same for the query buffer (times and ids).
+func vfArbQueryBuffer(s *Serf, n int) {
+	s.queryBuffer = make([]*queries, n)
+	qc := vfU64("qclock")
+	vfAssume(qc < 1<<62)
+	s.queryClock.counter.Store(qc)
+	s.queryMinTime = LamportTime(vfU64("qmin"))
+	for i := 0; i < n; i++ {
+		if vfBool("qslot") {
+			t := vfU64("qt")
+			vfAssume(t < qc)
+			vfAssume(t%uint64(n) == uint64(i))
+			q := &queries{LTime: LamportTime(t)}
+			if vfBool("qslot1") {
+				q.QueryIDs = append(q.QueryIDs, vfU32("qid"))
+			}
+			s.queryBuffer[i] = q
+		}
+	}
+}
+
+// vfArbIntents adds up to n buffered intents for unknown node names.
+func vfArbIntents(s *Serf, names []string) {
+	for _, nm := range names {
+		if vfBool("intent") {
+			ty := messageJoinType
+			if vfBool("intentLeave") {
+				ty = messageLeaveType
+			}
+			s.recentIntents[nm] = nodeIntent{Type: ty, LTime: LamportTime(vfU64("itime")), WallTime: vfTime("iwall")}
+		}
+	}
+}
+
+func vfQueuedTotal(s *Serf) int {
+	return s.broadcasts.NumQueued() + s.eventBroadcasts.NumQueued() + s.queryBroadcasts.NumQueued()
+}
+
+// vfC04Msg builds an arbitrary gossip message of the given kind
+// (0 join intent, 1 leave intent, 2 user event, 3 query) as wire bytes.
+// Times are below 2^62: the top of the 64-bit range is C19's subject.
+func vfC04Msg(kind int, allowPrune bool) []byte {
+	var b []byte
+	t := vfU64("mt")
+	vfAssume(t < 1<<62)
+	switch kind {
+	case 0:
+		b, _ = encodeMessage(messageJoinType, &messageJoin{LTime: LamportTime(t), Node: vfPickName(vfC04Names)}, false)
+	case 1:
+		prune := false
+		if allowPrune {
+			prune = vfBool("prune")
+		}
+		b, _ = encodeMessage(messageLeaveType, &messageLeave{LTime: LamportTime(t), Node: vfPickName(vfC04Names), Prune: prune}, false)
+	case 2:
+		b, _ = encodeMessage(messageUserEventType, &messageUserEvent{LTime: LamportTime(t), Name: string(vfFixedBytes("name", 1)), Payload: vfFixedBytes("pl", 1), CC: vfBool("cc")}, false)
+	case 3:
+		flags := uint32(0)
+		if vfBool("nobroadcast") {
+			flags |= queryFlagNoBroadcast
+		}
+		b, _ = encodeMessage(messageQueryType, &messageQuery{LTime: LamportTime(t), ID: vfU32("id"), Addr: []byte{10, 0, 0, 9}, Port: 1,
+			SourceNode: "origin", Flags: flags, Timeout: time.Second, Name: "q", Payload: nil}, false)
+	}
+	return b
+}
+
+var vfC04Names = 3
+
+func vfC04Finish(s *Serf, d *delegate, a []byte) {
+	q0 := vfQueuedTotal(s)
+	vfDrainEvents(s)
+	p0 := vfPackets()
+	d.NotifyMsg(a)
+	vfReach("C04.aba.done")
+	vfAssert("C04.aba.norequeue", vfQueuedTotal(s) == q0)
+	vfAssert("C05.aba.noredelivery", len(vfDrainEvents(s)) == 0)
+	vfAssert("C04.aba.noack", vfPackets() == p0)
+}
+
+
+// vfArbPushPull builds an arbitrary (bounded) push/pull payload as wire bytes:
+// status times for up to 2 of the given names, optionally one of them listed as
+// left, optionally one recorded user event, symbolic clocks.
+func vfArbPushPull(names []string) ([]byte, *messagePushPull) {
+	pp := &messagePushPull{
+		LTime:        LamportTime(vfU64("ppclock") >> 2),
+		StatusLTimes: map[string]LamportTime{},
+		EventLTime:   LamportTime(vfU64("ppeclock") >> 2),
+		QueryLTime:   LamportTime(vfU64("ppqclock") >> 2),
+	}
+	for _, nm := range names {
+		if vfBool("ppHas") {
+			pp.StatusLTimes[nm] = LamportTime(vfU64("ppstime") >> 2)
+			if vfBool("ppLeft") {
+				pp.LeftMembers = append(pp.LeftMembers, nm)
+			}
+		}
+	}
+	if vfBool("ppEvent") {
+		pp.Events = []*userEvents{nil, {LTime: LamportTime(vfU64("ppet") >> 2), Events: []userEvent{{Name: string(vfFixedBytes("ppen", 1)), Payload: vfFixedBytes("ppep", 1)}}}}
+	}
+	b, _ := encodeMessage(messagePushPullType, pp, false)
+	return b, pp
+}
+
+
+// vfEventABA is the user-event ABA scenario shared by C04 and C05.
+func vfEventABA() {
+	n := 2
+	if vfTier() == 1 {
+		n = 3
+	}
+	s := vfNewSerf("self", n)
+	vfArbEventBuffer(s, n)
+	s.eventJoinIgnore.Store(false)
+	d := &delegate{serf: s}
+	a := vfC04Msg(2, false)
+	d.NotifyMsg(a)
+	if vfBool("withB") {
+		d.NotifyMsg(vfC04Msg(2, false))
+	}
+	vfC04Finish(s, d, a)
+}
